@@ -722,18 +722,18 @@ theorem run_plain_args (st : St) (args : List Arg) (p : WritePrinter)
 /-- The prologue of a lowered statement without USING selects the device and clears the format; devices untouched. -/
 theorem run_prologue (st : St) (d : Device) :
     ∃ ps', run st (lowerTarget d ++ [.setFormatStringFromA (.int 0)]) = .ok { st with ps := ps' }
-      ∧ ps'.target = d ∧ ps'.formatString = none ∧ ps'.skipNewLine = st.ps.skipNewLine := by
+      ∧ ps'.target = d ∧ ps'.formatString = none ∧ ps'.skipNewLine = false := by
   cases d with
   | screen => exact ⟨_, rfl, rfl, rfl, rfl⟩
   | lpt1 => exact ⟨_, rfl, rfl, rfl, rfl⟩
   | file h => exact ⟨_, rfl, rfl, rfl, rfl⟩
 
-/-- **line_end_rule**: a PRINT / LPRINT / PRINT #n statement without USING, run from a statement boundary,
+/-- **line_end_rule**: a PRINT / LPRINT / PRINT #n statement without USING, run from any state,
 lays its items out on its device and then writes CR LF (column 0) — unless the item list ends in a separator:
 then nothing more is written and the column stays where the items left it.  Other devices are untouched, and the
 statement ends at a statement boundary again (skip-newline flag clear), so the next PRINT starts afresh. -/
 theorem line_end_rule (st : St) (s : Stmt) (p : WritePrinter)
-    (hfmt : s.format = none) (hflag : st.ps.skipNewLine = false) (hdev : st.dev s.target = some p) :
+    (hfmt : s.format = none) (hdev : st.dev s.target = some p) :
     ∃ st', run st (lower s) = .ok st'
       ∧ st'.ps.skipNewLine = false
       ∧ st'.dev s.target
@@ -748,7 +748,7 @@ theorem line_end_rule (st : St) (s : Stmt) (p : WritePrinter)
       (s.args.map lowerArg ++ [.printEnd]) := by
     simp [lower, hfmt]
   have hflag2 : st2.ps.skipNewLine = if s.args = [] then false else endsInSep s.args := by
-    rw [h2]; simp only; rw [flagAfter_eq, hsk, hflag]
+    rw [h2]; simp only; rw [flagAfter_eq, hsk]
   have hfmt2 : st2.ps.formatString = none := by rw [h2]; exact hf
   have ht2 : st2.ps.target = s.target := by rw [h2]; exact ht
   have hnil : s.args = [] → endsInSep s.args = false := by intro h; rw [h]; rfl
@@ -783,16 +783,16 @@ same device leaves on that device exactly what the single statement `PRINT a… 
 theorem print_continues (st : St) (s1 s2 : Stmt) (p : WritePrinter)
     (h1 : s1.format = none) (h2 : s2.format = none) (hsame : s2.target = s1.target)
     (hsep : endsInSep s1.args = true) (hne : s2.args ≠ [])
-    (hflag : st.ps.skipNewLine = false) (hdev : st.dev s1.target = some p) :
+    (hdev : st.dev s1.target = some p) :
     ∃ st' st'', run st (lower s1 ++ lower s2) = .ok st'
       ∧ run st (lower { s1 with args := s1.args ++ s2.args }) = .ok st''
       ∧ st'.dev s1.target = st''.dev s1.target := by
-  obtain ⟨sa, ha1, ha2, ha3, _⟩ := line_end_rule st s1 p h1 hflag hdev
+  obtain ⟨sa, ha1, ha2, ha3, _⟩ := line_end_rule st s1 p h1 hdev
   rw [hsep] at ha3
   simp only [if_true] at ha3
-  obtain ⟨sb, hb1, _, hb3, _⟩ := line_end_rule sa s2 (plainArgs p s1.args) h2 ha2 (by rw [hsame]; exact ha3)
+  obtain ⟨sb, hb1, _, hb3, _⟩ := line_end_rule sa s2 (plainArgs p s1.args) h2 (by rw [hsame]; exact ha3)
   obtain ⟨sc, hc1, _, hc3, _⟩ :=
-    line_end_rule st { s1 with args := s1.args ++ s2.args } p h1 hflag hdev
+    line_end_rule st { s1 with args := s1.args ++ s2.args } p h1 hdev
   refine ⟨sb, sc, ?_, hc1, ?_⟩
   · rw [run_append, ha1]; exact hb1
   · rw [hsame] at hb3
@@ -1106,7 +1106,7 @@ theorem run_prologue_fmt (st : St) (s : Stmt) :
     ∃ ps', run st (lowerTarget s.target ++ [.setFormatStringFromA (s.format.getD (.int 0))])
         = .ok { st with ps := ps' }
       ∧ ps'.target = s.target ∧ ps'.formatString = fmtOf s ∧ ps'.formatIndex = 0
-      ∧ ps'.skipNewLine = st.ps.skipNewLine := by
+      ∧ ps'.skipNewLine = false := by
   obtain ⟨d, f, args⟩ := s
   cases d <;> cases f with
     | none => exact ⟨_, rfl, rfl, rfl, rfl, rfl⟩
@@ -1216,11 +1216,11 @@ theorem lower_split (s : Stmt) :
       (s.args.map lowerArg ++ [.printEnd]) := by
   simp [lower]
 
-/-- **One statement, open device**: running the lowered statement from a statement boundary does to its device
+/-- **One statement, open device**: running the lowered statement (from any PrintState) does to its device
 exactly what `stmtOn` says — it fails with the same error, or it succeeds, leaves every other device alone and
 ends at a statement boundary.  (With and without USING: the same `PrintEnd` path.) -/
 theorem run_stmt (st : St) (s : Stmt) (p : WritePrinter)
-    (hflag : st.ps.skipNewLine = false) (hdev : st.dev s.target = some p) :
+    (hdev : st.dev s.target = some p) :
     match stmtOn s p with
     | .error e => run st (lower s) = .error e
     | .ok p' =>
@@ -1246,7 +1246,7 @@ theorem run_stmt (st : St) (s : Stmt) (p : WritePrinter)
     simp only at h2 h3 h4 ⊢
     rw [ht] at h3 h4
     have hflag2 : st2.ps.skipNewLine = if s.args = [] then false else endsInSep s.args := by
-      rw [h2]; simp only; rw [flagAfter_eq, hsk, hflag]
+      rw [h2]; simp only; rw [flagAfter_eq, hsk]
     have hfmt2 : st2.ps.formatString = fmtOf s := by rw [h2]; exact hf
     have hidx2 : st2.ps.formatIndex = i2 := by rw [h2]
     have ht2 : st2.ps.target = s.target := by rw [h2]; exact ht
@@ -1293,7 +1293,7 @@ theorem run_stmt (st : St) (s : Stmt) (p : WritePrinter)
 the next field is appended, and then CR LF — unless the item list ends in a separator: then the line stays open
 and the column is where the trailing literal left it. -/
 theorem line_end_rule_using (st : St) (s : Stmt) (p p' : WritePrinter) (f : List Char) (i : Nat)
-    (hfmt : s.format = some (.str f)) (hflag : st.ps.skipNewLine = false)
+    (hfmt : s.format = some (.str f))
     (hdev : st.dev s.target = some p) (hitems : itemsOn (some f) p 0 s.args = .ok (p', i)) :
     ∃ st', run st (lower s) = .ok st'
       ∧ st'.ps.skipNewLine = false
@@ -1302,15 +1302,15 @@ theorem line_end_rule_using (st : St) (s : Stmt) (p p' : WritePrinter) (f : List
            if endsInSep s.args then q else q.println)
       ∧ ∀ d, d ≠ s.target → st'.dev d = st.dev d := by
   have hfo : fmtOf s = some f := by simp [fmtOf, hfmt]
-  have h := run_stmt st s p hflag hdev
+  have h := run_stmt st s p hdev
   simp only [stmtOn, hfo, hitems] at h
   exact h
 
 /-- A failing item (bad format, type mismatch) makes the statement fail with that error. -/
 theorem using_error_propagates (st : St) (s : Stmt) (p : WritePrinter) (e : Err)
-    (hflag : st.ps.skipNewLine = false) (hdev : st.dev s.target = some p)
+    (hdev : st.dev s.target = some p)
     (hitems : itemsOn (fmtOf s) p 0 s.args = .error e) : run st (lower s) = .error e := by
-  have h := run_stmt st s p hflag hdev
+  have h := run_stmt st s p hdev
   simp only [stmtOn, hitems] at h
   exact h
 
@@ -1318,15 +1318,15 @@ theorem using_error_propagates (st : St) (s : Stmt) (p : WritePrinter) (e : Err)
 separator, `s2` acts on the device exactly as `s1` left it — no CR LF in between; what `s1` left is its items
 (and, with USING, the trailing literal). -/
 theorem print_continues_any (st : St) (s1 s2 : Stmt) (p p1 p2 : WritePrinter)
-    (hsame : s2.target = s1.target) (hflag : st.ps.skipNewLine = false) (hdev : st.dev s1.target = some p)
+    (hsame : s2.target = s1.target) (hdev : st.dev s1.target = some p)
     (h1 : stmtOn s1 p = .ok p1) (h2 : stmtOn s2 p1 = .ok p2) :
     ∃ st', run st (lower s1 ++ lower s2) = .ok st' ∧ st'.dev s1.target = some p2
       ∧ (endsInSep s1.args = true →
           ∃ q i, itemsOn (fmtOf s1) p 0 s1.args = .ok (q, i) ∧ p1 = finishOn (fmtOf s1) q i true) := by
-  have ha := run_stmt st s1 p hflag hdev
+  have ha := run_stmt st s1 p hdev
   rw [h1] at ha
   obtain ⟨sa, ha1, ha2, ha3, _⟩ := ha
-  have hb := run_stmt sa s2 p1 ha2 (by rw [hsame]; exact ha3)
+  have hb := run_stmt sa s2 p1 (by rw [hsame]; exact ha3)
   rw [h2] at hb
   obtain ⟨sb, hb1, _, hb3, _⟩ := hb
   refine ⟨sb, ?_, by rw [← hsame]; exact hb3, ?_⟩
@@ -1427,7 +1427,7 @@ theorem lowerProgram_cons (s : Stmt) (r : List Stmt) : lowerProgram (s :: r) = l
   simp [lowerProgram]
 
 /-- A successful program run does to every open device what that device's own statements say. -/
-theorem program_on_device (st st' : St) (prog : List Stmt) (hflag : st.ps.skipNewLine = false)
+theorem program_on_device (st st' : St) (prog : List Stmt)
     (h : run st (lowerProgram prog) = .ok st') (d : Device) (p : WritePrinter) (hp : st.dev d = some p) :
     ∃ p', runOn d p prog = .ok p' ∧ st'.dev d = some p' := by
   induction prog generalizing st p with
@@ -1442,7 +1442,7 @@ theorem program_on_device (st st' : St) (prog : List Stmt) (hflag : st.ps.skipNe
       obtain ⟨e, he⟩ := run_stmt_closed st s hdev
       rw [he] at h; cases h
     | some ps =>
-      have hs := run_stmt st s ps hflag hdev
+      have hs := run_stmt st s ps hdev
       cases hso : stmtOn s ps with
       | error e => rw [hso] at hs; simp only at hs; rw [hs] at h; cases h
       | ok p1 =>
@@ -1454,14 +1454,14 @@ theorem program_on_device (st st' : St) (prog : List Stmt) (hflag : st.ps.skipNe
         · subst htd
           have hpp : ps = p := by rw [hdev] at hp; exact Option.some.inj hp
           subst hpp
-          obtain ⟨p', hr, hd⟩ := ih st1 h2 h p1 h3
+          obtain ⟨p', hr, hd⟩ := ih st1 h p1 h3
           exact ⟨p', by simp [runOn, hso, hr], hd⟩
         · have hd1 : st1.dev d = some p := by rw [h4 d (fun e => htd e.symm)]; exact hp
-          obtain ⟨p', hr, hd⟩ := ih st1 h2 h p hd1
+          obtain ⟨p', hr, hd⟩ := ih st1 h p hd1
           exact ⟨p', by simp [runOn, htd, hr], hd⟩
 
 /-- Running only `d`'s statements succeeds when `runOn` does, with that result on `d`. -/
-theorem run_filtered (st : St) (prog : List Stmt) (hflag : st.ps.skipNewLine = false)
+theorem run_filtered (st : St) (prog : List Stmt)
     (d : Device) (p p' : WritePrinter) (hp : st.dev d = some p) (hr : runOn d p prog = .ok p') :
     ∃ st'', run st (lowerProgram (prog.filter (fun s => s.target = d))) = .ok st''
       ∧ st''.dev d = some p' := by
@@ -1478,17 +1478,17 @@ theorem run_filtered (st : St) (prog : List Stmt) (hflag : st.ps.skipNewLine = f
       | ok p1 =>
         rw [hso] at hr
         simp only at hr
-        have hs := run_stmt st s p hflag (by rw [htd]; exact hp)
+        have hs := run_stmt st s p (by rw [htd]; exact hp)
         rw [hso] at hs
         obtain ⟨st1, h1, h2, h3, _⟩ := hs
         rw [htd] at h3
-        obtain ⟨st'', hrun, hd⟩ := ih st1 h2 p1 h3 hr
+        obtain ⟨st'', hrun, hd⟩ := ih st1 p1 h3 hr
         refine ⟨st'', ?_, hd⟩
         simp only [List.filter_cons, htd, decide_true, if_true]
         rw [lowerProgram_cons, run_append, h1]
         exact hrun
     · simp only [runOn, htd, if_false] at hr
-      obtain ⟨st'', hrun, hd⟩ := ih st hflag p hp hr
+      obtain ⟨st'', hrun, hd⟩ := ih st p hp hr
       refine ⟨st'', ?_, hd⟩
       simp only [List.filter_cons, htd, decide_false]
       exact hrun
@@ -1496,12 +1496,12 @@ theorem run_filtered (st : St) (prog : List Stmt) (hflag : st.ps.skipNewLine = f
 /-- **Statement-level projection**: if a program — PRINT / LPRINT / PRINT #n statements, with or without USING,
 interleaved over any devices — runs to its end, then for every open device `d`, running only the statements
 addressed to `d` also succeeds and leaves on `d` exactly the same bytes and column. -/
-theorem statement_projection (st st' : St) (prog : List Stmt) (hflag : st.ps.skipNewLine = false)
+theorem statement_projection (st st' : St) (prog : List Stmt)
     (h : run st (lowerProgram prog) = .ok st') (d : Device) (p : WritePrinter) (hp : st.dev d = some p) :
     ∃ st'', run st (lowerProgram (prog.filter (fun s => s.target = d))) = .ok st''
       ∧ st''.dev d = st'.dev d := by
-  obtain ⟨p', hr, hd⟩ := program_on_device st st' prog hflag h d p hp
-  obtain ⟨st'', hrun, hd''⟩ := run_filtered st prog hflag d p p' hp hr
+  obtain ⟨p', hr, hd⟩ := program_on_device st st' prog h d p hp
+  obtain ⟨st'', hrun, hd''⟩ := run_filtered st prog d p p' hp hr
   exact ⟨st'', hrun, by rw [hd, hd'']⟩
 
 example : (St.init [1]).ps.skipNewLine = false := rfl
@@ -1716,5 +1716,60 @@ theorem using_numeric_fraction_digits (ifmt ffmt : List Char) (d : Dec) (hk : 0 
 
 example : (fmtWithFractionalPart ['#', '#', '#'] ['#', '#'] (.double ⟨true, 3147, 3⟩)).toOption
     = some [' ', '-', '3', '.', '1', '5'] := by decide
+
+/-! ## Statements start afresh; calls from a PRINT list are transparent (repo fix 89314cd) -/
+
+/-- **A statement forgets the PrintState it finds**: `set_printer_type` resets every field (device, handle, format,
+cursor and — since 89314cd — the pending-separator flag), so what a lowered statement does, and the state it leaves,
+do not depend on the `PrintState` left by an earlier or an interrupted statement.  (This is why the theorems about
+the line end need no "starts at a statement boundary" hypothesis.) -/
+theorem statement_forgets_state (ps1 ps2 : PrintState) (dev : Devices) (s : Stmt) :
+    run ⟨ps1, dev⟩ (lower s) = run ⟨ps2, dev⟩ (lower s) := by
+  obtain ⟨d, f, args⟩ := s
+  cases d <;> simp [lower, lowerTarget, run, step, psStep, PrintState.setPrinterType]
+
+example : run ⟨{ PrintState.new with skipNewLine := true, formatString := some ['#'] }, (St.init []).dev⟩
+      (lower ⟨.screen, none, []⟩)
+    = run (St.init []) (lower ⟨.screen, none, []⟩) := statement_forgets_state _ _ _ _
+
+theorem runS_base (st st' : St) (stack : List PrintState) (is : List Instr) (rest : List SInstr)
+    (h : run st is = .ok st') : runS st stack (is.map .base ++ rest) = runS st' stack rest := by
+  induction is generalizing st with
+  | nil =>
+    simp only [run, Except.ok.injEq] at h
+    subst h; rfl
+  | cons i r ih =>
+    simp only [run] at h
+    cases hs : step st i with
+    | error e => rw [hs] at h; cases h
+    | ok st1 =>
+      rw [hs] at h
+      simp only [List.map_cons, List.cons_append, runS, hs]
+      exact ih st1 h
+
+/-- **A function called from a PRINT list is transparent for the caller's statement**: whatever complete print
+instructions the callee executes (`PushRet`, body, `PopRet`), the caller continues with exactly the `PrintState` it
+had at the call — same device, file handle, format string and cursor, same pending separator — and the devices as
+the callee's statements left them. -/
+theorem call_transparent (st st1 : St) (stack : List PrintState) (body : List Instr) (rest : List SInstr)
+    (h : run st body = .ok st1) :
+    runS st stack (.pushRet :: (body.map .base ++ .popRet :: rest))
+      = runS { st1 with ps := st.ps } stack rest := by
+  simp only [runS]
+  rw [runS_base st st1 (st.ps :: stack) body _ h]
+  simp only [runS]
+
+/-- ... in particular the callee's statements touch only the devices they address (`devices_independent`), and a
+callee that prints nothing to the caller's device leaves the caller's line exactly as it was. -/
+theorem call_leaves_other_devices (st st1 : St) (body : List Instr) (h : run st body = .ok st1) (d : Device)
+    (hno : ∀ e ∈ events st.ps body, e.1 ≠ d) :
+    ({ st1 with ps := st.ps } : St).dev d = st.dev d ∧ ({ st1 with ps := st.ps } : St).ps = st.ps :=
+  ⟨untouched_device st st1 body h d hno, rfl⟩
+
+example : (runS (St.init []) []
+      ([.base (.setPrinterType .print), .base (.setFormatStringFromA (.int 0)), .base (.valueFromA (.int 1)),
+        .base .semicolon, .pushRet] ++ (lower ⟨.screen, none, []⟩).map .base ++
+       [.popRet, .base (.valueFromA (.int 3)), .base .printEnd])).1.dev .screen
+    = some ⟨[' ', '1', ' ', '\r', '\n', ' ', '3', ' ', '\r', '\n'], 0⟩ := by decide
 
 end RbThm.C16
